@@ -104,19 +104,30 @@ def owner_of(cls, name):
     return None
 
 
+_SIG = {}
+
+
+def _noarg(cls, name):
+    """None when the method can be called without arguments, else the reason"""
+    key = (cls, name)
+    if key not in _SIG:
+        try:
+            sig = inspect.signature(getattr(cls, name))
+            req = [p for p in list(sig.parameters.values())[1:]
+                   if p.default is inspect.Parameter.empty and p.kind in (p.POSITIONAL_ONLY, p.POSITIONAL_OR_KEYWORD, p.KEYWORD_ONLY)]
+            _SIG[key] = 'unknown signature %s: NOT APPLIED' % sig if req else None
+        except (TypeError, ValueError):
+            _SIG[key] = 'no signature'
+    return _SIG[key]
+
+
 def variants(obj, name, aux):
     """list of (variant, args, kwargs), or a string saying why the method is not applied"""
     if name in CALLS:
         v = CALLS[name](obj, aux)
         return v if v is not None else 'not applicable to this object / not called (I/O)'
-    try:
-        sig = inspect.signature(getattr(obj, name))
-    except (TypeError, ValueError):
-        return 'no signature'
-    for p in sig.parameters.values():
-        if p.default is inspect.Parameter.empty and p.kind in (p.POSITIONAL_ONLY, p.POSITIONAL_OR_KEYWORD, p.KEYWORD_ONLY):
-            return 'unknown signature %s: NOT APPLIED' % sig
-    return [('', (), {})]
+    why = _noarg(type(obj), name)
+    return why if why is not None else [('', (), {})]
 
 
 def find_legs(res):
@@ -297,13 +308,16 @@ def describe(X, obj, base_pipe, arr_seed):
     return d
 
 
+_CAND = {}
+
+
 def apply_all(obj, aux, base_pipe=None, arr_seed=None):
     """apply every public method that can return a leg; one record per (method, variant)"""
     cls = type(obj)
     out = []
-    for n in public_names(cls):
-        if kind_of(cls, n) != 'method' or n in NOT_LEG:
-            continue
+    if cls not in _CAND:
+        _CAND[cls] = [n for n in public_names(cls) if kind_of(cls, n) == 'method' and n not in NOT_LEG]
+    for n in _CAND[cls]:
         vs = variants(obj, n, aux)
         if isinstance(vs, str):
             continue
